@@ -1277,7 +1277,7 @@ func execConn(o hx.Op) string {
 			if sr.err != nil {
 				sconn.Close()
 			}
-		case <-time.After(30 * time.Second):
+		case <-time.After(8 * time.Second):
 			return "r st=hang"
 		}
 	}
@@ -1399,7 +1399,7 @@ func execRekeySig(o hx.Op) string {
 			if err != nil {
 				return "r first=err rekey=-"
 			}
-		case <-time.After(20 * time.Second):
+		case <-time.After(8 * time.Second):
 			return "r first=hang rekey=-"
 		}
 	}
@@ -1423,7 +1423,7 @@ func execRekeySig(o hx.Op) string {
 	ch.RequestKeyExchange()
 	res := "hang"
 	t0 := time.Now()
-	for time.Since(t0) < 20*time.Second {
+	for time.Since(t0) < 8*time.Second {
 		select {
 		case <-cdead:
 			res = "fail"
@@ -1449,6 +1449,160 @@ func execRekeySig(o hx.Op) string {
 	return "r first=ok rekey=" + res
 }
 
+// ---------------------------------------------------------------- first_kex_packet_follows (RFC 4253 §7)
+
+func frame(payload []byte) []byte {
+	pad := 8 - (5+len(payload))%8
+	if pad < 4 {
+		pad += 8
+	}
+	out := make([]byte, 4, 5+len(payload)+pad)
+	binary.BigEndian.PutUint32(out, uint32(1+len(payload)+pad))
+	out = append(out, byte(pad))
+	out = append(out, payload...)
+	return append(out, make([]byte, pad)...)
+}
+
+func readFrame(r io.Reader) ([]byte, error) {
+	var l [4]byte
+	if _, err := io.ReadFull(r, l[:]); err != nil {
+		return nil, err
+	}
+	n := binary.BigEndian.Uint32(l[:])
+	if n < 2 || n > 1<<20 {
+		return nil, io.ErrUnexpectedEOF
+	}
+	body := make([]byte, n)
+	if _, err := io.ReadFull(r, body); err != nil {
+		return nil, err
+	}
+	pad := int(body[0])
+	if pad+1 >= int(n) {
+		return nil, io.ErrUnexpectedEOF
+	}
+	return body[1 : int(n)-pad], nil
+}
+
+type frameConn struct {
+	c     io.ReadWriter
+	first bool // WritePacket: the first packet was already sent as the guess
+}
+
+func (f *frameConn) WritePacket(p []byte) error { _, err := f.c.Write(frame(p)); return err }
+func (f *frameConn) ReadPacket() ([]byte, error) { return readFrame(f.c) }
+
+// execFKF: a scripted client whose KEXINIT sets first_kex_packet_follows and which sends a guessed kex packet,
+// against the real server. The server must use the guess iff both first preferences (kex and host key) coincide.
+func execFKF(o hx.Op) string {
+	ck, chk := o.List("ck"), o.List("chk")
+	sk := o.List("sk")
+	fkf, resend := o.Str("fkf") == "1", o.Str("resend") == "1"
+	a, b := newBufHalf(), newBufHalf()
+	pconnC, sconn := &pipeConn{r: b, w: a}, &pipeConn{r: a, w: b}
+	defer pconnC.Close()
+	defer sconn.Close()
+	keys := hostKeys()[0]
+	scfg := &ssh.ServerConfig{NoClientAuth: true}
+	scfg.KeyExchanges = sk
+	for _, h := range o.List("shk") { // host keys in this order: the server's host key algorithm list follows it
+		scfg.AddHostKey(keys[keyFormat(h)].signer)
+	}
+	cv, sv := []byte("SSH-2.0-verifC"), []byte("SSH-2.0-verifS")
+	sh := ssh.VerifNewServerHandshake(sconn, cv, sv, scfg)
+	defer func() { go sh.Close() }()
+	sres := make(chan error, 1)
+	go func() { sres <- sh.WaitSession() }()
+	r := hx.NewRand(o.U64("seed"))
+	// the peer's KEXINIT
+	nl := func(xs ...string) []byte { return wStr([]byte(strings.Join(xs, ","))) }
+	mine := append([]byte{20}, r.Bytes(16)...)
+	mine = append(mine, nl(append(append([]string(nil), ck...), "kex-strict-c-v00@openssh.com")...)...)
+	mine = append(mine, nl(chk...)...)
+	for i := 0; i < 2; i++ {
+		mine = append(mine, nl("aes128-ctr")...)
+	}
+	for i := 0; i < 2; i++ {
+		mine = append(mine, nl("hmac-sha2-256")...)
+	}
+	for i := 0; i < 2; i++ {
+		mine = append(mine, nl("none")...)
+	}
+	mine = append(mine, nl()...)
+	mine = append(mine, nl()...)
+	if fkf {
+		mine = append(mine, 1)
+	} else {
+		mine = append(mine, 0)
+	}
+	mine = append(mine, 0, 0, 0, 0)
+	fc := &frameConn{c: pconnC}
+	fc.WritePacket(mine)
+	theirs, err := fc.ReadPacket()
+	if err != nil || theirs[0] != 20 {
+		return "r s=err note=no-kexinit"
+	}
+	// negotiated method: the first of ours that the server lists
+	neg := ""
+	for _, k := range ck {
+		for _, x := range sk {
+			if k == x && neg == "" {
+				neg = k
+			}
+		}
+	}
+	pres := make(chan error, 1)
+	go func() {
+		if fkf { // the guess: a well-formed init packet of our first preference
+			guess := ck[0]
+			if guess == neg && !resend {
+				// right guess, used by the server: this is the exchange itself
+				_, err := ssh.VerifKexClient(neg, fc, r, cv, sv, mine, theirs)
+				if err == nil {
+					fc.WritePacket([]byte{21})
+				}
+				pres <- err
+				return
+			}
+			// a guessed packet that we will not rely on: ECDH-style init with a fresh value of the guessed method
+			g := &captureFirst{}
+			ssh.VerifKexClient(guess, g, r.Fork(), cv, sv, mine, theirs)
+			fc.WritePacket(g.first)
+		}
+		_, err := ssh.VerifKexClient(neg, fc, r, cv, sv, mine, theirs)
+		if err == nil {
+			fc.WritePacket([]byte{21})
+		}
+		pres <- err
+	}()
+	st := "stall"
+	select {
+	case err := <-sres:
+		if err == nil {
+			st = "ok"
+		} else {
+			st = "err"
+		}
+	case <-time.After(6 * time.Second):
+	}
+	algs := ""
+	if st == "ok" {
+		_, _, strict, _ := sh.SeqNums()
+		algs = fmt.Sprintf(" strict=%v", strict)
+	}
+	return "r s=" + st + " neg=" + neg + algs
+}
+
+// captureFirst records the first packet a kex client writes and then fails the exchange.
+type captureFirst struct{ first []byte }
+
+func (c *captureFirst) WritePacket(p []byte) error {
+	if c.first == nil {
+		c.first = append([]byte(nil), p...)
+	}
+	return nil
+}
+func (c *captureFirst) ReadPacket() ([]byte, error) { return nil, io.EOF }
+
 func execNames() string {
 	sup, ins := ssh.SupportedAlgorithms().KeyExchanges, ssh.InsecureAlgorithms().KeyExchanges
 	sort.Strings(sup)
@@ -1465,6 +1619,8 @@ func exec(line string) string {
 		return execConn(o)
 	case "rksig":
 		return execRekeySig(o)
+	case "fkf":
+		return execFKF(o)
 	case "names":
 		return execNames()
 	case "choose":
@@ -1586,6 +1742,38 @@ func gen(g *hx.Gen) {
 			g.Emit("conn m=%s hk=%s cb=%s cv=%s sv=%s", m.name, hk, cb, hx.Hex(r.Bytes(r.Range(1, 6))), hx.Hex(r.Bytes(r.Range(1, 6))))
 			g.Stat("conn." + cb)
 			g.Stat("pair.conn:" + m.kind + "+" + hk)
+		}
+	}
+	// first_kex_packet_follows: the server uses the guessed packet iff both first preferences coincide
+	{
+		A, B, C := "ecdh-sha2-nistp256", "ecdh-sha2-nistp384", "mlkem768x25519-sha256"
+		H1, H2, H3 := "ssh-ed25519", "ecdsa-sha2-nistp256", "ecdsa-sha2-nistp384"
+		type fk struct {
+			ck, chk, sk, shk []string
+		}
+		cases := []fk{
+			{[]string{A, C}, []string{H1, H3}, []string{A, B}, []string{H1, H2}},    // right guess; second entries all differ
+			{[]string{A}, []string{H1}, []string{A, B}, []string{H1, H2}},            // right guess, one-element lists
+			{[]string{B, A}, []string{H1, H2}, []string{A, B}, []string{H1, H2}},    // kex first preference differs (B is negotiated)
+			{[]string{A, B}, []string{H2, H1}, []string{A, B}, []string{H1, H2}},    // host key first preference differs
+			{[]string{C, A}, []string{H3, H1}, []string{A, B}, []string{H1, H2}},    // both differ; the guessed method is not even supported
+			{[]string{A, B}, []string{H1, H2}, []string{A, B}, []string{H1, H2}},    // identical lists
+			{[]string{B, A}, []string{H2, H1}, []string{B, C}, []string{H2, H1}},    // right guess with another first preference
+		}
+		for _, c := range cases {
+			for _, fkf := range []int{1, 0} {
+				for _, resend := range []int{0, 1} {
+					right := c.ck[0] == c.sk[0] && c.chk[0] == c.shk[0]
+					if fkf == 1 && !right && resend == 0 {
+						continue // the server would wait for the real init: nothing to observe but a time-out
+					}
+					if fkf == 0 && resend == 1 {
+						continue
+					}
+					g.Emit("fkf seed=%d fkf=%d resend=%d ck=%s chk=%s sk=%s shk=%s", r.U64()>>1, fkf, resend, strings.Join(c.ck, ","), strings.Join(c.chk, ","), strings.Join(c.sk, ","), strings.Join(c.shk, ","))
+					g.Stat(fmt.Sprintf("first-kex-follows.fkf%d.right%v.resend%d", fkf, right, resend))
+				}
+			}
 		}
 	}
 	// multi-exchange sessions: the host key signature must be verified on every exchange
